@@ -56,6 +56,13 @@ class _Subst(ast.NodeTransformer):
             return copy.deepcopy(self.env[n.id])
         return n
 
+    def visit_Call(self, n: ast.Call) -> ast.AST:
+        # typing.cast(T, e) is e
+        if isinstance(n.func, ast.Name) and n.func.id == "cast" and len(
+                n.args) == 2 and not n.keywords:
+            return self.visit(n.args[1])
+        return self.generic_visit(n)
+
     # comprehension variables shadow
     def _comp(self, n: Any) -> ast.AST:
         bound = {t.id for g in n.generators for t in ast.walk(g.target)
